@@ -54,7 +54,9 @@ class VarExpr:
         if self.varname == "@name":
             return str(info.path.parent.name)
 
-        return info.tags.get(self.varname, None)
+        # Tags can be numbers or booleans: filters compare texts
+        value = info.tags.get(self.varname, None)
+        return None if value is None else str(value)
 
     def __repr__(self):
         return f"""VAR<{self.varname}>"""
@@ -173,7 +175,7 @@ quotedString = pp.QuotedString('"', unquoteResults=True) | pp.QuotedString(
     "'", unquoteResults=True
 )
 
-var = l("@state") | l("@name") | pp.Word(pp.alphas)
+var = l("@state") | l("@name") | pp.Word(pp.alphas + "_", pp.alphanums + "_")
 var.setParseAction(VarExpr)
 
 regexExpr = var + tilde + quotedString
